@@ -566,6 +566,37 @@ pub fn run(ctx: &Ctx, rec: &mut Rec) {
             }
         }
     });
+    // structured decoder strings (aliases, near-misses, engineered square-root exponents, near-valid
+    // rejects, special field values, fold-collision aliases): whatever any decoding entry point hands out
+    // must be a valid element
+    rec.declare_form("decoding entry points on hostile strings");
+    {
+        let mut srng = rng_for(ctx.seed, P, 995, 0);
+        let strings = crate::encp::decode_strings(ctx, &mut srng, ctx.scale(20, 100), ctx.scale(2000, 100_000), false);
+        let eps = crate::encp::entry_points();
+        rec.count("hostile_decoder_strings", strings.len() as u64);
+        par(rec, |w, n, rec| {
+            for (i, (s, class)) in strings.iter().enumerate() {
+                if i % n != w {
+                    continue;
+                }
+                for ep in &eps {
+                    if s.len() != 32 && !ep.any_len {
+                        continue;
+                    }
+                    let s2 = s.clone();
+                    if let Ok((_, Some(e))) = guarded(|| (ep.f)(&s2)) {
+                        rec.form("decoding entry points on hostile strings");
+                        rec.eval(&("hostile-decode", ep.name, s.clone()), false);
+                        // the (expensive) model-side membership test on every string of the special classes and on a
+                        // third of the others, through the first entry point; the cheap checks always
+                        let special = !matches!(*class, "valid" | "random" | "random-masked-even" | "bit-flip" | "alias s+kq" | "s+1" | "s+2" | "top-bits" | "q-s");
+                        validate(ctx, rec, ep.name, &e, json!({"bytes": hx(s), "class": class}), ep.name == eps[0].name && (special || i % 3 == 0));
+                    }
+                }
+            }
+        });
+    }
     let _ = b(0);
     rec.check_coverage();
 }
